@@ -1777,14 +1777,40 @@ impl Oracles {
                     }
                     continue;
                 }
-                let answers: Vec<String> = probes
-                    .iter()
-                    .map(|h| match &h.final_answer {
-                        Some(a) => super::engine::short_answer(a),
-                        None => "unanswered".into(),
-                    })
-                    .collect();
-                if probes.len() >= 2 {
+                // A probe counts as failed if it was answered with something else,
+                // or if it was delivered, nothing for its hash is outstanding any
+                // more and every deadline has certainly passed (it hangs).
+                let x = super::content::pool().hashes[*hix];
+                let quiet = !w.node.outstanding_rpcs().any(|(_, r)| r.hash == Some(x))
+                    && !w.node.has_pending(&x)
+                    && !w.node.cmd_running(&x);
+                let mut failed = 0;
+                let mut answers: Vec<String> = Vec::new();
+                for h in probes.iter() {
+                    match &h.final_answer {
+                        Some(a) => {
+                            failed += 1;
+                            answers.push(super::engine::short_answer(a));
+                        }
+                        None => {
+                            let hung = match h.state {
+                                super::node::HtlcState::InFlight(ci) => {
+                                    let c = &w.node.calls[ci];
+                                    c.lifetime == w.node.lifetime
+                                        && c.delivered_at_ms
+                                            .map(|t| w.now_ms >= t + w.cfg.mpp_timeout * 1000 + 61_000)
+                                            .unwrap_or(false)
+                                }
+                                _ => false,
+                            };
+                            if hung && quiet && w.plugin_up {
+                                failed += 1;
+                                answers.push("never answered".into());
+                            }
+                        }
+                    }
+                }
+                if failed >= 2 || (failed >= 1 && answers.iter().any(|a| a == "never answered")) {
                     bad.push((*hix, answers.join(", ")));
                 }
             }
